@@ -59,7 +59,7 @@ def cases(draw, tier):
             "heap": draw(st.sampled_from([1, 10, 1000, 1000, 10 ** 9 if kind in ("walk", "edit1") else 10 ** 4,
                                           "inf" if kind in ("walk", "edit1") else 1000])),
             "salt": draw(st.integers(0, 2 ** 16)),
-            "layout": draw(st.sampled_from([None, None, None, "F", "strided", "offset", "int32"])),
+            "layout": draw(st.sampled_from([None, None, None, "F", "strided", "offset", "int32", "readonly"])),
             "np_start": draw(st.sampled_from([False, False, True])),
             "np_args": draw(st.sampled_from([False, False, False, True]))}
 
